@@ -260,7 +260,7 @@ def strace_round(binary, line):
     lo, hi = int(m.group(1), 16), int(m.group(2), 16)
     W, scripts, noexec, inter, n = [], 0, 0, 0, 0
     for l in open(tr, errors='replace'):
-        mm = re.search(r'mprotect\((0x[0-9a-f]+), (\d+), ([A-Z_|]+)\)\s+= 0', l)
+        mm = re.search(r'mprotect\((0x[0-9a-f]+), (\d+), ([A-Z_|]+)(\)\s+= 0| <unfinished)', l)  # a failed call changes nothing
         if not mm:
             continue
         a = int(mm.group(1), 16)
@@ -301,6 +301,24 @@ def unlocked_exports_reachable():
                     if re.search(r'\bpatch\.' + name + r'\(', src):
                         hits.append(f'{os.path.relpath(os.path.join(root, f), C.REPO)}: patch.{name}')
     return hits
+
+
+def skeleton_lane(exe):
+    """Lock/access skeleton of the anchored functions, extracted from the CURRENT source (go/ast) vs the skeleton declared by
+    the model's section bodies. Returns (n_compared, [differences])."""
+    tool = os.path.join(C.BUILD, 'c11skel')
+    rc, o, e = C.sh(['go', 'build', '-o', tool, '.'], cwd=os.path.join(C.HARNESS, 'c11', 'skel'), env=C.goenv())
+    if rc != 0:
+        raise C.Infra('building harness/c11/skel failed:\n' + e[-2000:])
+    rc, o, e = C.sh([tool, C.REPO])
+    rows = sorted(l.split('\t', 1) for l in o.splitlines() if '\t' in l)
+    opsf = os.path.join(C.BUILD, 'c11.skel.ops')
+    open(opsf, 'w').write(''.join(f'c11.skel {k}\n' for k, _ in rows))
+    model = C.run_driver(exe, opsf, os.path.join(C.BUILD, 'c11.skel.model')) if rows else []
+    diffs = [f'{k}: source `{v}` / model `{m}`' for (k, v), m in zip(rows, model) if v != m]
+    if len(rows) < 14:
+        diffs.append(f'only {len(rows)} of 14 anchored functions found in the source')
+    return len(rows), diffs
 
 
 def corpus():
@@ -361,6 +379,8 @@ def run(tier):
                           {'kind': 'impl-oracle', 'ops': [st_line], 'strace': st}, key='interleaved')
         if wmodel != f'copies={st["scripts"]}':
             corr.append(f'WriteTo scripts under strace: {st["scripts"]}, model: {wmodel}')
+    nskel, skdiff = skeleton_lane(wexe) if wexe else (0, ['driver missing'])
+    corr += ['lock skeleton differs — ' + d for d in skdiff]
     reach = unlocked_exports_reachable()
     if reach:
         corr.append('unlocked patch-table accessors are now reachable from non-test code: ' + '; '.join(reach))
@@ -407,7 +427,7 @@ def run(tier):
             'same_page_pairs(target, other used location)': tot('share'), 'targets_whose_13_bytes_cross_a_page': tot('cross'),
             'race_reports': tot('races'), 'text_kb_diffed_per_round': int(ext[0].get('textkb', 0)) if ext else 0,
             'strace_lane': st and {k: v for k, v in st.items() if k != 'obs'}, 'model_writeTo_scripts': wmodel,
-            'unlocked_exports_reachable_from_api': reach,
+            'unlocked_exports_reachable_from_api': reach, 'source_skeletons_compared': nskel, 'source_skeleton_differences': skdiff,
         },
         'samples': [{'op': ops[i][:400], 'impl': (impl[i] or '')[:400], 'model': (model[i] if model else '')[:300]} for i in (0, n_real // 2, n_real - 1, len(ops) - 1)],
         'explanation': 'Only observed, not proved: absence of data races on fields outside the model (race detector, a test), absence of torn '
